@@ -41,12 +41,16 @@ Definition track (st : registry) (ph : phantom) (id : ident) (r : reginfo) : reg
   if tracked st ph id then st
   else st ++ [{| e_ph := ph; e_id := id; e_reg := set_valid false r |}].
 
-(* RegisteredDecoys.register: track if unknown, then mark the stored object valid *)
+(* RegisteredDecoys.register: track if unknown, then mark the stored object valid - but only if it
+   is the caller's own object (pointer identity, here the object's name): a different object
+   stored under the same identifier is never validated on the caller's behalf *)
+Definition mark_valid (ph : phantom) (id : ident) (name : N) (e : entry) : entry :=
+  if key_eqb ph id e && (r_name (e_reg e) =? name)
+  then {| e_ph := e_ph e; e_id := e_id e; e_reg := set_valid true (e_reg e) |}
+  else e.
+
 Definition validate (st : registry) (ph : phantom) (id : ident) (r : reginfo) : registry :=
-  map (fun e => if key_eqb ph id e
-                then {| e_ph := e_ph e; e_id := e_id e; e_reg := set_valid true (e_reg e) |}
-                else e)
-      (track st ph id r).
+  map (mark_valid ph id (r_name r)) (track st ph id r).
 
 (* removeRegistration of the (phantom, identifier) whose timeout has run out *)
 Definition expire (st : registry) (ph : phantom) (id : ident) : registry :=
